@@ -9,6 +9,10 @@ out of fuel whenever `cB rest < fuel`: each iteration either stops or advances o
 namespace Octave
 namespace Parser
 
+-- the proofs below execute every path of large `do` blocks symbolically: 5× the default budget, so that no proof
+-- sits at the edge of the deterministic timeout
+set_option maxHeartbeats 1000000
+
 /-- monotone step: the invariant is kept and neither measure grows. -/
 structure Le (r r' : List Token) : Prop where
   eof : EofEnd r'
